@@ -55,11 +55,17 @@ def _strategy(draw):
     for i in range(draw(st.integers(0, 2))):
         cls = draw(st.sampled_from(["simple", "simple", "transport", "contract"]))
         assets.append(gen.draw_asset(draw, cx, cls, "c%d" % i))
-    lo = draw(st.sampled_from([0.5, 1.0, 4.0]))
-    assets += gen.markets(cx, lo_price=lo, hi_price=draw(st.sampled_from([14.0, 8.0, 5.0])), cap_q=16.0)
-    # time varying market prices so that storages cycle
-    cx.prices["pm_hi"] = [max(lo, v) + 1.0 for v in prices["p0"]]
-    cx.prices["pm_lo"] = [max(0.0, v - 0.5) if variant != "mip" else v - 0.5 for v in prices["p0"]]
+    # one market pair per node with its own time-varying price level (spatial and temporal spreads;
+    # negative prices only for MIP storages, where simultaneous charge/discharge is excluded by option)
+    mk = gen.markets(cx, cap_q=16.0)
+    spread = draw(st.sampled_from([0.0, 0.5, 1.0]))
+    for i, n in enumerate(nodes):
+        base = draw(gen.price_series(g["T"], positive=(variant != "mip")))
+        cx.prices["pm_hi%d" % i] = [v + spread for v in base]
+        cx.prices["pm_lo%d" % i] = [v if variant == "mip" else max(0.0, v) for v in base]
+        mk[2 * i]["price"] = "pm_hi%d" % i
+        mk[2 * i + 1]["price"] = "pm_lo%d" % i
+    assets += mk
     return {"grid": g, "prices": cx.prices, "assets": assets, "variant": variant, "excluded_known": excluded}
 
 
